@@ -649,6 +649,19 @@ func c13Blanks(c *Ctx) {
 			skipped[k] = true
 		}
 	}
+	// no cursor move where the next byte is known to be the newline: a line break is a token (it ends a
+	// statement), also behind a carriage return
+	nMove := 0
+	for _, call := range movers(sw) {
+		nMove++
+		overNewline := false
+		for _, rl := range F.At(call.Block()).Rels() {
+			if k, ok := constInt(rl.y); ok && rl.op == relEQ && k == '\n' {
+				overNewline = true
+			}
+		}
+		c.check(!overNewline, "R4", fmt.Sprintf("newline-never-skipped #%d", nMove), p.InstrPos(call), "the skip does not move over a newline", "skipWhitespace advances where the next byte is known to be '\\n' (the line feed of a CRLF pair, say): no Newline token is produced for that line break, and the statement it ended runs on into the next line")
+	}
 	var ks []string
 	for k := range skipped {
 		ks = append(ks, k)
